@@ -29,6 +29,7 @@ package c02
 
 import (
 	"bytes"
+	"compress/gzip"
 	"expvar"
 	"fmt"
 	"net/http"
@@ -56,7 +57,7 @@ import (
 type fromDef struct {
 	db, rp, name string
 	wh           int    // -1 = no where()
-	opts         string // subset of "gamtr": groupBy('host'), groupBy(*), groupByMeasurement(), truncate(1s), round(1s)
+	opts         string // letters of optLetters: groupBy(...) variants, groupByMeasurement(), truncate(d), round(d)
 	parent       int    // -1 = stream|from(); j = chained below from-node #j (j earlier)
 }
 
@@ -72,6 +73,55 @@ type point struct {
 	pass []int // oracle: indices of the where-predicates that are true of this point
 	v    int64
 	host string
+	dc   string // second tag ("" = absent)
+	t    int64  // time, Unix ns
+}
+
+// The from() options a letter stands for, in the order script() renders them. A later groupBy call replaces the
+// dimensions of an earlier one (pipeline.FromNode.GroupBy assigns), so do the letters here.
+//
+//	g groupBy('host')          G groupBy('zone', 'host') (listed unsorted; no point has a zone tag)
+//	D groupBy('host', 'dc', 'host') (a duplicate)        a groupBy(*)
+//	m groupByMeasurement()
+//	t truncate(1s)   T truncate(7s) (7 s does not divide a day: Go's year-1 origin is visible)   n truncate(-1s) (no-op)
+//	r round(1s)      R round(7s)
+const optLetters = "gGDamtTnrR"
+
+type fromOpts struct {
+	dims        []string
+	star        bool
+	byName      bool
+	trunc, rnd  time.Duration
+	groupByCall string // the rendered .groupBy(...) property, "" = none
+}
+
+func optsOf(letters string) fromOpts {
+	var o fromOpts
+	for _, c := range letters {
+		switch c {
+		case 'g':
+			o.dims, o.star, o.groupByCall = []string{"host"}, false, ".groupBy('host')"
+		case 'G':
+			o.dims, o.star, o.groupByCall = []string{"zone", "host"}, false, ".groupBy('zone', 'host')"
+		case 'D':
+			o.dims, o.star, o.groupByCall = []string{"host", "dc", "host"}, false, ".groupBy('host', 'dc', 'host')"
+		case 'a':
+			o.dims, o.star, o.groupByCall = nil, true, ".groupBy(*)"
+		case 'm':
+			o.byName = true
+		case 't':
+			o.trunc = time.Second
+		case 'T':
+			o.trunc = 7 * time.Second
+		case 'n':
+			o.trunc = -time.Second
+		case 'r':
+			o.rnd = time.Second
+		case 'R':
+			o.rnd = 7 * time.Second
+		}
+	}
+	return o
 }
 
 // The where() predicates a from() may carry. `eval` is the harness' own reading of the lambda (the lambda
@@ -108,12 +158,12 @@ func pointTok(p *point) string {
 		}
 		ps = strings.Join(s, ";")
 	}
-	return fmt.Sprintf("%d|%s|%s|%d|%s", p.id, kit.Esc(p.name), ps, p.v, kit.Esc(p.host))
+	return fmt.Sprintf("%d|%s|%s|%d|%s|%s|%d", p.id, kit.Esc(p.name), ps, p.v, kit.Esc(p.host), kit.Esc(p.dc), p.t)
 }
 
 func parsePoint(tok string) (*point, error) {
 	f := strings.Split(tok, "|")
-	if len(f) != 5 {
+	if len(f) != 5 && len(f) != 7 {
 		return nil, fmt.Errorf("bad point %q", tok)
 	}
 	id, err := strconv.ParseInt(f[0], 10, 64)
@@ -132,12 +182,21 @@ func parsePoint(tok string) (*point, error) {
 	if err != nil {
 		return nil, err
 	}
+	dc, t := "", origTime(id).UnixNano() // 5-field tokens (older corpus files): no second tag, the conventional time
+	if len(f) == 7 {
+		if dc, err = kit.Unesc(f[5]); err != nil {
+			return nil, err
+		}
+		if t, err = strconv.ParseInt(f[6], 10, 64); err != nil {
+			return nil, err
+		}
+	}
 	if name == "" {
 		// influxdb's models.Point keeps name and tags in one key (`name,tag=value`); with an empty name the tags
 		// cannot be read back (a limitation of that library, not of kapacitor): such points carry no tags here
-		host = ""
+		host, dc = "", ""
 	}
-	p := &point{id: id, name: name, v: v, host: host}
+	p := &point{id: id, name: name, v: v, host: host, dc: dc, t: t}
 	p.pass = passOf(p)
 	return p, nil
 }
@@ -220,7 +279,7 @@ func parseFroms(tok string) ([]fromDef, error) {
 		fd := fromDef{db: db, rp: rp, name: nm, wh: wh, parent: -1}
 		if len(f) == 6 {
 			if f[4] != "-" {
-				if strings.Trim(f[4], "gamtr") != "" {
+				if strings.Trim(f[4], optLetters) != "" {
 					return nil, fmt.Errorf("bad from options %q", f[4])
 				}
 				fd.opts = f[4]
@@ -264,20 +323,18 @@ func script(d *taskDef) string {
 		if f.wh >= 0 {
 			b.WriteString("        .where(lambda: " + preds[f.wh].lambda + ")\n")
 		}
-		if strings.Contains(f.opts, "g") {
-			b.WriteString("        .groupBy('host')\n")
+		o := optsOf(f.opts)
+		if o.groupByCall != "" {
+			b.WriteString("        " + o.groupByCall + "\n")
 		}
-		if strings.Contains(f.opts, "a") {
-			b.WriteString("        .groupBy(*)\n")
-		}
-		if strings.Contains(f.opts, "m") {
+		if o.byName {
 			b.WriteString("        .groupByMeasurement()\n")
 		}
-		if strings.Contains(f.opts, "t") {
-			b.WriteString("        .truncate(1s)\n")
+		if o.trunc != 0 {
+			fmt.Fprintf(&b, "        .truncate(%ds)\n", int64(o.trunc/time.Second))
 		}
-		if strings.Contains(f.opts, "r") {
-			b.WriteString("        .round(1s)\n")
+		if o.rnd != 0 {
+			fmt.Fprintf(&b, "        .round(%ds)\n", int64(o.rnd/time.Second))
 		}
 		fmt.Fprintf(&b, "f%d\n    @sink()\n", i)
 	}
@@ -678,7 +735,8 @@ func lpEsc(s string, measurement bool) string {
 // origTime is the time a point is written with: 300 ms apart, so that truncate(1s)/round(1s) are visible.
 func origTime(id int64) time.Time { return baseTime.Add(time.Duration(id) * 300 * time.Millisecond) }
 
-var precUnit = map[string]int64{"-": 1, "n": 1, "u": 1e3, "ms": 1e6, "s": 1e9}
+// "x" is a precision the server does not know: it counts as nanoseconds
+var precUnit = map[string]int64{"-": 1, "n": 1, "u": 1e3, "ms": 1e6, "s": 1e9, "m": 60e9, "h": 3600e9, "x": 1}
 
 // what the harness remembers of a written point (to check what the sinks recorded)
 type wpoint struct {
@@ -694,7 +752,10 @@ func (r *runner) mkPoints(pts []*point) ([]imodels.Point, bool) {
 		if p.host != "" {
 			tags["host"] = p.host
 		}
-		mp, err := imodels.NewPoint(p.name, imodels.NewTags(tags), imodels.Fields{"id": p.id, "v": p.v}, origTime(p.id))
+		if p.dc != "" {
+			tags["dc"] = p.dc
+		}
+		mp, err := imodels.NewPoint(p.name, imodels.NewTags(tags), imodels.Fields{"id": p.id, "v": p.v}, time.Unix(0, p.t).UTC())
 		if err != nil {
 			return nil, false
 		}
@@ -703,9 +764,30 @@ func (r *runner) mkPoints(pts []*point) ([]imodels.Point, bool) {
 	return mps, true
 }
 
-// post sends one body to the /write endpoint; db / rp / precision "" = parameter absent.
-func (r *runner) post(db, rp, prec string, hasDB, hasRP bool, body []byte) string {
+// post sends one body to the /write endpoint; db / rp / precision "" = parameter absent. flags (comma separated):
+// gz = the body is sent gzip-compressed with `Content-Encoding: gzip`; gzhdr = that header on a body that is no gzip
+// stream; gztrunc = a gzip stream cut short; cons = a `consistency` parameter (never read by kapacitor).
+func (r *runner) post(db, rp, prec string, hasDB, hasRP bool, flags string, body []byte) string {
 	var q []string
+	gzHeader := false
+	for _, fl := range strings.Split(flags, ",") {
+		switch fl {
+		case "gz", "gztrunc":
+			var zb bytes.Buffer
+			zw := gzip.NewWriter(&zb)
+			zw.Write(body)
+			zw.Close()
+			body = zb.Bytes()
+			if fl == "gztrunc" {
+				body = body[:len(body)-6] // drop the trailer and the end of the deflate stream
+			}
+			gzHeader = true
+		case "gzhdr":
+			gzHeader = true
+		case "cons":
+			q = append(q, "consistency=bogus")
+		}
+	}
 	if hasDB {
 		q = append(q, "db="+urlEsc(db))
 	}
@@ -718,8 +800,15 @@ func (r *runner) post(db, rp, prec string, hasDB, hasRP bool, body []byte) strin
 	u := r.tm.HTTPD.URL() + "/write?" + strings.Join(q, "&")
 	var resp *http.Response
 	err, hung := r.call("POST /write", func() error {
-		var e error
-		resp, e = http.Post(u, "text/plain", bytes.NewReader(body))
+		req, e := http.NewRequest("POST", u, bytes.NewReader(body))
+		if e != nil {
+			return e
+		}
+		req.Header.Set("Content-Type", "text/plain")
+		if gzHeader {
+			req.Header.Set("Content-Encoding", "gzip")
+		}
+		resp, e = http.DefaultClient.Do(req)
 		return e
 	})
 	if hung {
@@ -735,10 +824,16 @@ func (r *runner) post(db, rp, prec string, hasDB, hasRP bool, body []byte) strin
 	return "ok"
 }
 
-func lpLine(p *point, prec string) (string, time.Time) {
-	unit := precUnit[prec]
-	ts := origTime(p.id).UnixNano() / unit
-	return fmt.Sprintf("%s,host=%s id=%di,v=%di %d\n", lpEsc(p.name, true), lpEsc(p.host, false), p.id, p.v, ts), time.Unix(0, ts*unit).UTC()
+// lpLine renders the point as a line with the integer time stamp ts (in the request's precision).
+func lpLine(p *point, ts int64) string {
+	tags := ""
+	if p.dc != "" {
+		tags += ",dc=" + lpEsc(p.dc, false)
+	}
+	if p.host != "" {
+		tags += ",host=" + lpEsc(p.host, false)
+	}
+	return fmt.Sprintf("%s%s id=%di,v=%di %d\n", lpEsc(p.name, true), tags, p.id, p.v, ts)
 }
 
 // accepted does the book-keeping of points the implementation accepted.
@@ -751,7 +846,7 @@ func (r *runner) accepted(db, rp string, pts []*point, times map[int64]time.Time
 	for _, p := range pts {
 		t, ok := times[p.id]
 		if !ok {
-			t = origTime(p.id)
+			t = time.Unix(0, p.t).UTC()
 		}
 		r.wrote[p.id] = &wpoint{p: p, db: db, rp: erp, t: t}
 	}
@@ -790,11 +885,9 @@ func (r *runner) write(db, rp string, pts []*point) string {
 	if r.http {
 		var body bytes.Buffer
 		for _, p := range pts {
-			l, t := lpLine(p, "n")
-			body.WriteString(l)
-			times[p.id] = t
+			body.WriteString(lpLine(p, p.t))
 		}
-		if obs := r.post(db, rp, "", true, true, body.Bytes()); obs != "ok" {
+		if obs := r.post(db, rp, "", true, true, "", body.Bytes()); obs != "ok" {
 			return obs
 		}
 	} else {
@@ -833,7 +926,10 @@ func (r *runner) swrite(db, rp string, pts []*point) string {
 			if p.host != "" {
 				tags["host"] = p.host
 			}
-			pm := edge.NewPointMessage(p.name, db, rp, models.Dimensions{}, models.Fields{"id": p.id, "v": p.v}, tags, origTime(p.id))
+			if p.dc != "" {
+				tags["dc"] = p.dc
+			}
+			pm := edge.NewPointMessage(p.name, db, rp, models.Dimensions{}, models.Fields{"id": p.id, "v": p.v}, tags, time.Unix(0, p.t).UTC())
 			if e := r.stream.CollectPoint(pm); e != nil {
 				return e
 			}
@@ -875,23 +971,35 @@ func (r *runner) drain() string {
 // malformed line-protocol lines (each makes models.ParsePointsWithPrecision fail)
 var badLines = []string{"cpu_without_fields", "cpu v=", "cpu,host= v=1i", "cpu v=1i notatime"}
 
-// hwrite: one HTTP request; lines[i] == nil is a malformed line (bad[i] says which).
-func (r *runner) hwrite(db, rp, prec string, hasDB, hasRP bool, lines []*point, bad []int) string {
+// one line of an hwrite body
+type hline struct {
+	p    *point // nil: no point
+	ts   int64  // the integer time stamp of the line, in the request's precision
+	bad  int    // p == nil: index into badLines, or
+	skip int    // >= 0: a line without a point (0 = comment, 1 = blank)
+}
+
+var skipLines = []string{"# a comment", "   "}
+
+// hwrite: one HTTP request.
+func (r *runner) hwrite(db, rp, prec string, hasDB, hasRP bool, flags string, lines []hline) string {
 	r.source("writepoints")
 	var body bytes.Buffer
 	times := map[int64]time.Time{}
 	var good []*point
-	for i, p := range lines {
-		if p == nil {
-			body.WriteString(badLines[bad[i]%len(badLines)] + "\n")
-			continue
+	for _, l := range lines {
+		switch {
+		case l.p != nil:
+			body.WriteString(lpLine(l.p, l.ts))
+			times[l.p.id] = time.Unix(0, l.ts*precUnit[prec]).UTC()
+			good = append(good, l.p)
+		case l.skip >= 0:
+			body.WriteString(skipLines[l.skip%len(skipLines)] + "\n")
+		default:
+			body.WriteString(badLines[l.bad%len(badLines)] + "\n")
 		}
-		l, t := lpLine(p, prec)
-		body.WriteString(l)
-		times[p.id] = t
-		good = append(good, p)
 	}
-	obs := r.post(db, rp, prec, hasDB, hasRP, body.Bytes())
+	obs := r.post(db, rp, prec, hasDB, hasRP, flags, body.Bytes())
 	if obs == "ok" {
 		r.accepted(db, rp, good, times)
 	}
@@ -953,9 +1061,14 @@ func urlEsc(s string) string {
 	return b.String()
 }
 
-// sinkIDs renders what a sink recorded: the ids in order; an id gets a suffix when the recorded point is not the
-// written point as the from-node must hand it on: `!c` content (name, db, rp, tags, fields), `!t` time (after the
-// truncate / round of the from-nodes above the sink), `!d` dimensions (groupBy / groupByMeasurement of ITS from-node).
+// sinkIDs renders what a sink recorded, one token per point, in order:
+//
+//	<id>[!c][!t][!d]|<name>|<db>|<rp>|<time ns>|<byName 0/1>|<dimension tag names ;>|<tags k=v ;>|<fields k=v ;>
+//
+// (maps sorted by key). The Lean driver judges these against the documented point (spec) and the model. The suffixes
+// are the harness' own, independent comparison with the written point, kept as a cross-check of the driver: `!c`
+// content (name, db, rp, tags, fields), `!t` time (after the truncate / round of the from-nodes above the sink), `!d`
+// dimensions (groupBy / groupByMeasurement of ITS from-node).
 func (r *runner) sinkIDs(key string) string {
 	msgs := r.tm.Rec.Get(key)
 	if len(msgs) == 0 {
@@ -983,9 +1096,18 @@ func (r *runner) sinkIDs(key string) string {
 		}
 		if w := r.wrote[id]; w != nil && ep != nil {
 			host, hasHost := pm.Tags()["host"]
+			dc, hasDC := pm.Tags()["dc"]
 			v, _ := pm.Fields()["v"].(int64)
+			nTags := 0
+			if w.p.host != "" {
+				nTags++
+			}
+			if w.p.dc != "" {
+				nTags++
+			}
 			if pm.Name() != w.p.name || pm.Database() != w.db || pm.RetentionPolicy() != w.rp || v != w.p.v ||
-				host != w.p.host || hasHost != (w.p.host != "") || len(pm.Fields()) != 2 || len(pm.Tags()) > 1 {
+				host != w.p.host || hasHost != (w.p.host != "") || dc != w.p.dc || hasDC != (w.p.dc != "") ||
+				len(pm.Fields()) != 2 || len(pm.Tags()) != nTags {
 				tok += "!c"
 			}
 			// time: the from-nodes from the top of the chain down to this one truncate, then round
@@ -995,33 +1117,69 @@ func (r *runner) sinkIDs(key string) string {
 			}
 			t := w.t
 			for _, j := range chain {
-				if strings.Contains(ep.def.froms[j].opts, "t") {
-					t = t.Truncate(time.Second)
+				o := optsOf(ep.def.froms[j].opts)
+				if o.trunc != 0 {
+					t = t.Truncate(o.trunc)
 				}
-				if strings.Contains(ep.def.froms[j].opts, "r") {
-					t = t.Round(time.Second)
+				if o.rnd != 0 {
+					t = t.Round(o.rnd)
 				}
 			}
 			if !pm.Time().Equal(t) {
 				tok += "!t"
 			}
-			o := ep.def.froms[ep.i].opts
-			var want []string
-			if strings.Contains(o, "a") {
-				if w.p.host != "" {
-					want = []string{"host"}
+			o := optsOf(ep.def.froms[ep.i].opts)
+			want := append([]string{}, o.dims...)
+			if o.star {
+				want = nil
+				if w.p.dc != "" {
+					want = append(want, "dc")
 				}
-			} else if strings.Contains(o, "g") {
-				want = []string{"host"}
+				if w.p.host != "" {
+					want = append(want, "host")
+				}
 			}
+			sortStrings(want)
 			dims := pm.Dimensions()
-			if dims.ByName != strings.Contains(o, "m") || strings.Join(dims.TagNames, ",") != strings.Join(want, ",") {
+			if dims.ByName != o.byName || strings.Join(dims.TagNames, ",") != strings.Join(want, ",") {
 				tok += "!d"
 			}
 		}
-		s = append(s, tok)
+		s = append(s, tok+"|"+obsPoint(pm))
 	}
 	return strings.Join(s, ",")
+}
+
+// obsPoint renders everything a recorded PointMessage holds.
+func obsPoint(pm edge.PointMessage) string {
+	list := func(a []string) string {
+		if len(a) == 0 {
+			return "-"
+		}
+		return strings.Join(a, ";")
+	}
+	var tn, tags, fields []string
+	for _, x := range pm.Dimensions().TagNames {
+		tn = append(tn, kit.Esc(x))
+	}
+	for k, v := range pm.Tags() {
+		tags = append(tags, kit.Esc(k)+"="+kit.Esc(v))
+	}
+	for k, v := range pm.Fields() {
+		if i, ok := v.(int64); ok {
+			fields = append(fields, kit.Esc(k)+"="+strconv.FormatInt(i, 10))
+		} else {
+			fields = append(fields, kit.Esc(k)+"=?")
+		}
+	}
+	sortStrings(tags)
+	sortStrings(fields)
+	by := "0"
+	if pm.Dimensions().ByName {
+		by = "1"
+	}
+	return fmt.Sprintf("%s|%s|%s|%d|%s|%s|%s|%s", kit.Esc(pm.Name()), kit.Esc(pm.Database()), kit.Esc(pm.RetentionPolicy()),
+		pm.Time().UnixNano(), by, list(tn), list(tags), list(fields))
 }
 
 // execCase runs the op lines of one case and returns them with observations. `final`/`quiesce` lines are
@@ -1134,39 +1292,56 @@ func execCase(ops []string) (out []string, hung string) {
 			id, _ := kit.Unesc(t[1])
 			guard(line, func() string { return r.stop(id, t[0] == "delete") })
 		case "hwrite":
-			if len(t) != 5 || precUnit[t[3]] == 0 {
+			if (len(t) != 5 && len(t) != 6) || precUnit[t[3]] == 0 {
 				out = append(out, line+" => badop")
 				continue
 			}
 			db, _ := kit.Unesc(t[1])
 			rp, _ := kit.Unesc(t[2])
-			var lines []*point
-			var bad []int
+			flags := "-"
+			if len(t) == 6 {
+				flags = t[5]
+			}
+			var lines []hline
 			var toks []string
 			ok := true
 			for _, x := range strings.Split(t[4], ",") {
-				if strings.HasPrefix(x, "!") {
+				if strings.HasPrefix(x, "!") || strings.HasPrefix(x, "#") {
 					k, err := strconv.Atoi(x[1:])
 					if err != nil || k < 0 {
 						ok = false
 						break
 					}
-					lines, bad, toks = append(lines, nil), append(bad, k), append(toks, x)
+					if x[0] == '!' {
+						lines = append(lines, hline{bad: k, skip: -1})
+					} else {
+						lines = append(lines, hline{skip: k})
+					}
+					toks = append(toks, x)
 					continue
 				}
-				p, err := parsePoint(x)
+				// <point>@<ts>; without @<ts> (older corpus files): the point's time in the request's precision
+				ptok, tsTok, hasTS := strings.Cut(x, "@")
+				p, err := parsePoint(ptok)
 				if err != nil || p.name == "" {
 					ok = false
 					break
 				}
-				lines, bad, toks = append(lines, p), append(bad, 0), append(toks, pointTok(p))
+				ts := p.t / precUnit[t[3]]
+				if hasTS {
+					if ts, err = strconv.ParseInt(tsTok, 10, 64); err != nil {
+						ok = false
+						break
+					}
+				}
+				lines, toks = append(lines, hline{p: p, ts: ts, skip: -1}), append(toks, pointTok(p)+"@"+strconv.FormatInt(ts, 10))
 			}
 			if !ok {
 				out = append(out, line+" => badop")
 				continue
 			}
-			line = fmt.Sprintf("hwrite %s %s %s %s", t[1], t[2], t[3], strings.Join(toks, ","))
-			guard(line, func() string { return r.hwrite(db, rp, t[3], t[1] != "%", t[2] != "%", lines, bad) })
+			line = fmt.Sprintf("hwrite %s %s %s %s %s", t[1], t[2], t[3], strings.Join(toks, ","), flags)
+			guard(line, func() string { return r.hwrite(db, rp, t[3], t[1] != "%", t[2] != "%", flags, lines) })
 		case "cwrite":
 			if len(t) != 4 {
 				out = append(out, line+" => badop")
